@@ -1,7 +1,7 @@
 (* Extract.v - monolithic extraction of the executable models and specs.
    ExtrOcamlBasic only: bool, option, list, prod, unit, sumbool map to
    OCaml's; N, Z, positive and nat stay the extracted inductives. *)
-Require Import PV.Base PV.Dec PV.Dewey PV.DeweySpec PV.Pattern PV.AltSpec PV.Summary PV.Distinfo PV.DigestM PV.Plist PV.PkgPathM PV.ScanIndex.
+Require Import PV.Base PV.Dec PV.Dewey PV.DeweySpec PV.Pattern PV.AltSpec PV.Summary PV.Distinfo PV.DigestM PV.Plist PV.PkgPathM PV.ScanIndex PV.Metadata.
 Require Extraction.
 Require Import ExtrOcamlBasic.
 Extraction Language OCaml.
@@ -17,5 +17,6 @@ Extraction "model.ml"
   all_algs alg_name alg_parse alg_parse_bytes filter_patch classify parse_dline di_from_bytes di_as_bytes di_insert di_empty
   hash_file_pre hash_patch_pre
   pkgpath_new pkgpath_eqb depend_new scan_read words trim
+  all_mentries to_filename from_filename read_metadata meta_empty meta_is_valid db_iter valid_pkgdir package_of
   entry_of_bytes plist_of_bytes scan_lines files files_prefixed install_cmds uninstall_cmds depends build_depends conflicts pkgdirs pkgrmdirs pl_pkgname pl_display is_preserve
   entry_bytes find_entry verify_size verify_checksum path_eqb pcomps.
